@@ -127,16 +127,20 @@ func (s *ServerKeyStore) destroyCurrentKeyPair(ring api.MutableKeyRing) error {
 }
 
 func (s *ServerKeyStore) describeNewKeyPair(keypair *keys.Keypair) api.KeyDescription {
+	// Either half may be absent (a keystore v1 directory may hold only the public or only
+	// the private key file). Do not dereference nil: a missing public key is then rejected
+	// by AddKey with ErrNoKeyData, a missing private key gives a public-only key.
+	data := api.KeyData{Format: api.ThemisKeyPairFormat}
+	if keypair.Public != nil {
+		data.PublicKey = keypair.Public.Value
+	}
+	if keypair.Private != nil {
+		data.PrivateKey = keypair.Private.Value
+	}
 	return api.KeyDescription{
 		ValidSince: time.Now(),
 		ValidUntil: time.Now().Add(defaultKeyCryptoperiod),
-		Data: []api.KeyData{
-			{
-				Format:     api.ThemisKeyPairFormat,
-				PublicKey:  keypair.Public.Value,
-				PrivateKey: keypair.Private.Value,
-			},
-		},
+		Data:       []api.KeyData{data},
 	}
 }
 
